@@ -361,3 +361,16 @@ prop("C12", level="exploration",
      min_nontrivial=dict(quick=20000, thorough=500000),
      min_counters=dict(canary_requests_served=dict(quick=100, thorough=2000), malformed_inputs=dict(quick=1000, thorough=20000)),
      assumptions=["libp2p mocknet streams stand in for real transports (the stream handler, msgio framing and reset semantics are the real ones)"])
+
+prop("C20", level="exploration",
+     stages=[dict(pkg="fullstack", test="TestC20", sub="concurrent", race=True, vary_gomaxprocs=True,
+                  cases=dict(quick=400, thorough=6000), timeout=3600)],
+     technique="runtime monitoring: 2-5 concurrent requests between one real requestor and one real responder over overlapping / disjoint DAGs with per-request speed skew (block-hook delays, link jitter, yield-point perturbation); each request's delivered nodes compared with its stand-alone reference traversal, final store checked for every loaded block; Go race detector",
+     level_text=("Classes: overlapping DAGs in the default scope, overlapping DAGs with distinct dedup keys, disjoint DAGs, overlapping DAGs whose shared blocks the "
+                 "requestor already holds. The responder holds everything, so each request's stand-alone result is the full traversal of its (sub-)DAG with "
+                 "no missing-block error; afterwards every block any traversal loads must be in the requestor store."),
+     level_note="Overlap in one dedup scope is a recorded known finding; the other three classes must hold.",
+     rule=("One evaluation = one set of concurrent requests. Non-trivial = all requests ran to completion and were compared; distinct by case; "
+           "distinct_sets.classes = classes exercised."),
+     min_nontrivial=dict(quick=150, thorough=2500),
+     assumptions=_fs_assume)
